@@ -205,9 +205,8 @@ def unrepresentable(s, sep=None):
         if m and form in ('Y-Ww-D', 'YWwD') and int(m.group(1)) == 9999:
             y, w, d = 9999, int(m.group(2)), int(m.group(3))
             if 1 <= d <= 7 and 1 <= w <= weeks_in_year(y) and week_date(y, w, d) is None:
-                rest = t[m.end():]
-                if not rest or ((sep is None or rest[0] == sep) and _time_parts(rest[1:])):
-                    return True
+                # the date itself cannot be represented; whatever follows, overflow while computing it is acceptable
+                return True
     for form, d, end in date_prefixes(t):
         if end < len(t) and (sep is None or t[end] == sep) and form in COMPLETE:
             for h, mi, se, us, off, is24 in _time_parts(t[end + 1:]):
